@@ -43,8 +43,9 @@ func runC20(c *Ctx) {
 	r.Rule("C20.R2", "readyState is written only inside setReadyState; every setReadyState call passes a declared DataChannelState constant; ReadyState() returns the stored value for every state", 7)
 	r.Rule("C20.R3", "OnOpen/OnDial/OnClose handlers are invoked only inside sync.Once.Do of the matching Once field; a Once field is reset only in a d.mu critical section that also installs the matching handler, and handlers are installed under d.mu", 12)
 	r.Rule("C20.R4", "Send and SendText tabulated over every stored state: the transport write happens (exactly once) iff the state is open; in every other state an error is returned and nothing is written", 14)
+	r.Rule("C20.R5", "PeerConnection.close, first closer: every path to the exit passes a point that sets every registered data channel to closed (an unconditional range over sctpTransport.dataChannels calling setReadyState(DataChannelStateClosed) on its element, or a callee all of whose paths do): a channel whose transport never came up still ends in closed", 1)
 	r.NotCovered = append(r.NotCovered,
-		"liveness: that a closed channel ends in 'closed' once the transport is gone",
+		"liveness of the read loop: that a channel with a live stream ends in 'closed' once the stream is gone (C20.R5 decides only the W3C close step 5 sweep)",
 		"the unsynchronised read of the Once fields by goroutines calling Do while OnOpen/OnClose re-register (data race, C40)",
 		"handlers other than open/dial/close (message, error, buffered-amount-low)")
 	r.Trusted = append(r.Trusted, "sync/atomic.Value Load/Store/CompareAndSwap are atomic", "sync.Once.Do runs its argument at most once per Once value", "absint soundness on the supported fragment")
@@ -69,6 +70,7 @@ func runC20(c *Ctx) {
 	x.r12()
 	x.r3()
 	x.r4()
+	c20R5(c) // c20b.go
 
 	if c.Thorough {
 		c05Config386(c, func(c2 *Ctx) { runC20(c2) })
